@@ -164,6 +164,34 @@ func c15Oracle(in c15In) probe.Outcome {
 	if !bytes.Equal(computed, mac) {
 		return probe.Fail("receiver computes %x for a genuine packet carrying %x (ref-built=%v)\n packet %x", computed, mac, in.RefBuilt, w)
 	}
+	// a receiver that changes the decoded packet (e.g. to build its answer) gets the MAC of the packet as it is then
+	{
+		r := new(eap.EAP)
+		if err := probe.Try(func() error { return r.Unmarshal(probe.Exact(w)) }); err == nil {
+			ak := r.EapTypeData.(*eap.EapAkaPrime)
+			if err := probe.Try(func() error { return ak.SetAttr(eap.AT_KDF, []byte{0x12, 0x34}) }); err == nil {
+				m2, err := libCalc(r, in.Key)
+				if err != nil {
+					return probe.Fail("CalcEapAkaPrimeAtMAC on a modified decoded packet: %v", err)
+				}
+				var w2 []byte
+				if err := probe.Try(func() error {
+					if e := ak.SetAttr(eap.AT_MAC, m2); e != nil {
+						return e
+					}
+					var e error
+					w2, e = r.Marshal()
+					return e
+				}); err != nil {
+					return probe.Fail("marshalling the modified decoded packet: %v", err)
+				}
+				want2, err := refMAC(in.Key, w2)
+				if err != nil || !bytes.Equal(m2, want2) {
+					return probe.Fail("MAC of a decoded-then-modified packet is not the MAC over that packet as sent (%x vs %x, %v)", m2, want2, err)
+				}
+			}
+		}
+	}
 	// a different key gives a different value
 	k2 := append([]byte(nil), in.Key...)
 	if len(k2) == 0 {
